@@ -38,8 +38,8 @@ theorem C11_insert_col (m : Mode) (cap : Nat) (t : TD α) (h : t.Inv) (i : Nat) 
     (hcapw : cap < WORD) :
     let o := t.insertCol m cap i it spare
     o.res ≠ .error .ub ∧ o.res ≠ .error .fuel ∧ o.t.Inv ∧
-    (o.t.data ++ o.leaked ++ itemsOf o.rest).Perm (t.data ++ itemsOf it.events) := by
-  sorry
+    (o.t.data ++ o.leaked ++ itemsOf o.rest).Perm (t.data ++ itemsOf it.events) :=
+  ow_insertCol_any m cap t h i it spare hsp hcapw
 
 /-- `Drop for DrainCol` (the loop as written, `DrainCol.dropLoop`) when the destructor of the `j`-th remaining element panics
     (`j = none`: no panic): the `DropGuard` runs during unwinding, so the array and the set of dropped elements are exactly
@@ -50,7 +50,8 @@ theorem C11_drain_col_drop_fault (m : Mode) (t : TD α) (h : t.Inv) (i : Nat) (h
     (k : Nat) (hwf : d.iter.WF k t.data.length) (j : Option Nat) (fuel : Nat) (hf : k < fuel) :
     ∃ t' dropped p, d.dropLoop m fuel j [] = .ok ((t', dropped), p) ∧ d.drop m = .ok (t', dropped) ∧
       (p = true ↔ ∃ jj, j = some jj ∧ jj < k) := by
-  sorry
+  obtain ⟨t', dropped, p, h1, h2, h3⟩ := ow_dropLoop m t h i hi k d j [] fuel hb hc hnc hnr hwf hf
+  exact ⟨t', dropped, p, by simpa using h1, h2, h3⟩
 
 /-- a panicking comparator: `sort_by_row`/`sort_by_col` and all their variants call caller code only inside the side sort, which
     happens before `build_swap_trace` and before any write to the array.  The model of "comparator panics" is therefore the
